@@ -42,6 +42,10 @@ def run(res, tier, br, model_ok=True, search=False):
         cases.append(("snip.c", text, "snippet-" + kind))
         if big:
             cases.append(("snip.h", text, "snippet-" + kind))
+    for kind, text in faults.soup(rng, 2, 120000 if big else 6000, 7):
+        cases.append(("soup.c", text, kind))
+        if big and rng.random() < 0.2:
+            cases.append(("soup.h", text, kind + "/h"))
     outs = faults.run_many([(n, s) for n, s, k in cases], timeout=10.0)
     kinds = {}
     for (n, s, k), (o, m) in zip(cases, outs):
